@@ -141,28 +141,29 @@ def check_gate(shape, case1):
     from polyply.src.gen_coords import _check_molecules
     body, connected = GATE_ITP[shape]
     viols = []
-    with H.tempdir() as d:
-        (d / "m.itp").write_text("[ moleculetype ]\nM 1\n" + body)
-        (d / "s.top").write_text("[ defaults ]\n1 1 no 1.0 1.0\n[ atomtypes ]\nP1 72.0 0.0 A 0.47 4.0\n#include \"m.itp\"\n"
-                                 "[ system ]\nx\n[ molecules ]\nM 1\n")
-        top = Topology.from_gmx_topfile(d / "s.top", "x")
-        top.preprocess()
-        mol = top.molecules[0].molecule
-        really_connected = nx.is_connected(nx.Graph(mol.edges)) if len(mol) > 1 and mol.number_of_edges() else len(mol) == 1
-        g = nx.Graph()
-        g.add_nodes_from(mol.nodes)
-        g.add_edges_from(mol.edges)
-        really_connected = nx.is_connected(g)
-        try:
-            _check_molecules(top.molecules)
-            raised = False
-        except IOError:
-            raised = True
-    if really_connected != connected:
-        viols.append(dict(assertion="harness-gate-shape", tags=["harness"], message=f"{shape}: atom graph connected={really_connected}", case=case1, detail={}))
-    if raised == connected:
-        viols.append(dict(assertion="gate-raises-iff-atoms-disconnected", tags=[f"shape:{shape}"] + (["split-inside-one-residue"] if shape.startswith("split-inside-residue") else []),
-                          message=f"{shape}: atoms connected={connected} but gate raised={raised}", case=case1, detail={}))
+    # the molecule type alone, and listed after / between connected molecules of another type (the gate looks at every molecule)
+    for place, mols in (("only", "M 1\n"), ("second", "OK 1\nM 1\n"), ("last-of-many", "OK 2\nM 1\nOK 1\nM 1\n")):
+        with H.tempdir() as d:
+            (d / "m.itp").write_text("[ moleculetype ]\nM 1\n" + body + "[ moleculetype ]\nOK 1\n[ atoms ]\n1 P1 1 R a 1\n2 P1 2 R a 2\n[ bonds ]\n1 2 1 0.3 100\n")
+            (d / "s.top").write_text("[ defaults ]\n1 1 no 1.0 1.0\n[ atomtypes ]\nP1 72.0 0.0 A 0.47 4.0\n#include \"m.itp\"\n"
+                                     "[ system ]\nx\n[ molecules ]\n" + mols)
+            top = Topology.from_gmx_topfile(d / "s.top", "x")
+            top.preprocess()
+            mol = [m for m in top.molecules if m.mol_name == "M"][0].molecule
+            g = nx.Graph()
+            g.add_nodes_from(mol.nodes)
+            g.add_edges_from(mol.edges)
+            really_connected = nx.is_connected(g)
+            try:
+                _check_molecules(top.molecules)
+                raised = False
+            except IOError:
+                raised = True
+        if really_connected != connected:
+            viols.append(dict(assertion="harness-gate-shape", tags=["harness"], message=f"{shape}: atom graph connected={really_connected}", case=case1, detail={}))
+        if raised == connected:
+            viols.append(dict(assertion="gate-raises-iff-atoms-disconnected", tags=[f"shape:{shape}", f"place:{place}"] + (["split-inside-one-residue"] if shape.startswith("split-inside-residue") else []),
+                              message=f"{shape} ({place} in [ molecules ]): atoms connected={connected} but gate raised={raised}", case=case1, detail={}))
     return viols
 
 
